@@ -9,12 +9,31 @@ from rules_colour import path_role, op_role
 from rules_shape import U, SET_DEFS, BOOL_DEFS, stream_semantics
 
 
+def strip_ref_ty(T, tid):
+    while T[tid].get("k") == "ref":
+        tid = T[tid]["inner"]
+    return tid
+
+
 def rule_b_par(ctx):
     R = RuleResult("B-par", "the parallel raw iterator drives the main-table part and the old-table part exactly once each, with two different consumers "
                    "(the split-off left half and the remainder), and returns the reduction of both results; without an old table it drives the main part alone")
     ro = ctx.roles
-    par = [a for a, v in ro.composites.items() if v["family"] == "par"]
-    if not par:
+    par = [a for a, v in ro.composites.items() if v["family"].startswith("par")]
+    # an owning parallel composite (two by-value hashbrown parallel iterators) is built from the two tables of one split table
+    for b0 in ctx.facts.bodies.values():
+        for loc0, st0 in b0.all_assigns():
+            rv0 = st0["rv"]
+            if rv0["k"] != "aggregate" or rv0.get("adt") not in par or ro.composites[rv0["adt"]]["family"] == "par" or b0.is_cleanup(loc0.bb):
+                continue
+            comp = ro.composites[rv0["adt"]]
+            rm, ro_ = op_role(ctx, b0, rv0["ops"][comp["main"]]), op_role(ctx, b0, rv0["ops"][comp["old"]])
+            ok0 = rm == MAIN and ro_ == OLD
+            R.inst(fn=b0.path, site=b0.where(loc0), composite=rv0["adt"], main_part_from=str(rm), old_part_from=str(ro_), verdict="ok" if ok0 else "VIOLATION")
+            if not ok0:
+                R.viol("%s:construct:%s" % (b0.path, rv0["adt"]), b0.where(loc0), "the owning parallel iterator %s is built with a main part coming from %s and an old part "
+                       "coming from %s (expected the main table and the old table of one split table)" % (rv0["adt"], rm, ro_))
+    if not [a for a in par if ro.composites[a]["family"] == "par"]:
         R.anchor("par-composite", "no parallel composite iterator found (rayon feature not analysed?)")
         return R
     for adt in par:
@@ -106,10 +125,61 @@ def rule_p_wrap(ctx):
             continue
         calls = [c for c in ctx.calls(b) if not b.is_cleanup(c.loc.bb)]
         raw = [c for c in calls if c.local_callee() is not None and c.local_callee().path == raw_par.path]
+        comp_fields = [c for c in calls if c.method == "drive_unindexed" and c.arg_path(0) is not None and c.arg_path(0).root == 1 and c.arg_path(0).fields()
+                       and T[strip_ref_ty(T, c.args[0]["place"]["ty"])].get("adt") in ctx.roles.composites
+                       and ctx.roles.composites[T[strip_ref_ty(T, c.args[0]["place"]["ty"])]["adt"]]["family"].startswith("par")]
+        if not raw and comp_fields:
+            # an owning public parallel iterator that holds the raw owning composite in a field: driven once with the caller's consumer, result
+            # returned; every construction of the public type fills the field from a split table's own constructor of that composite
+            n += 1
+            d = comp_fields[0]
+            why = []
+            if len([c for c in calls if c.method == "drive_unindexed"]) != 1:
+                why.append("more than one drive")
+            q = d.arg_path(1)
+            if q is None or q.root != 2:
+                why.append("not driven with the caller's consumer")
+            if not (d.dest and d.dest["local"] in b.ret_locals()):
+                why.append("the drive's result is not returned")
+            fidx = d.arg_path(0).fields()[0][2]
+            built = 0
+            for b2 in ctx.facts.bodies.values():
+                for loc2, st2 in b2.all_assigns():
+                    rv2 = st2["rv"]
+                    if rv2["k"] == "aggregate" and rv2.get("adt") == adt and not b2.is_cleanup(loc2.bb):
+                        built += 1
+                        sd = b2.source_def(rv2["ops"][fidx])
+                        okc = False
+                        if sd is not None and sd[1] == "call":
+                            mk = ctx.call_at(b2, sd[0].bb)
+                            lc2 = mk.local_callee()
+                            rp2 = mk.arg_path(0)
+                            if lc2 is not None and "self_ty" in lc2.raw and T[lc2.raw["self_ty"]].get("adt") == ctx.roles.S and rp2 is not None \
+                                    and any(e[0] == "field" and e[1] in ctx.roles.holders for e in rp2.elems):
+                                okc = True
+                        if not okc:
+                            why.append("constructed at %s from something else than a map's own split table" % b2.where(loc2))
+            if not built:
+                why.append("never constructed")
+            R.inst(fn=b.path, over="owning raw composite in field %d" % fidx, verdict="ok" if not why else "VIOLATION")
+            if why:
+                R.viol(b.path, b.where(Loc(0, 0)), "; ".join(why))
+            continue
         if not raw:
             # built on another public parallel iterator (set over map keys, set algebra): E9-par covers the algebra; delegation checked here
             deleg = [c for c in calls if c.method in ("drive_unindexed",)]
             srcs = [c for c in calls if c.local_callee() is not None and c.local_callee().name in ("par_keys", "into_par_iter", "par_iter", "par_difference")]
+            if not srcs and len(deleg) == 1:
+                # the other public parallel iterator is held in a field of self
+                s_, args_ = b.slice_back(deleg[0].loc, [deleg[0].args[0]])
+                for loc_ in s_:
+                    if loc_.i < len(b.stmts(loc_.bb)):
+                        rv_ = b.stmts(loc_.bb)[loc_.i]["rv"]
+                        pl_ = rv_["op"]["place"] if rv_["k"] == "use" and rv_["op"]["k"] in ("copy", "move") else rv_.get("place")
+                        if pl_ is not None and pl_["local"] == 1 and pl_["proj"]:
+                            fa = T[strip_ref_ty(T, pl_["ty"])].get("adt", "")
+                            if fa.startswith("griddle::external_trait_impls::rayon::") and ctx.facts.adts.get(fa, {}).get("exported"):
+                                srcs = [deleg[0]]
             n += 1
             ok = len(deleg) == 1 and deleg[0].dest["local"] in b.ret_locals() and srcs
             R.inst(fn=b.path, over=[c.tname for c in srcs][:2], verdict="ok" if ok else "VIOLATION")
